@@ -358,6 +358,9 @@ FRAMES = [
      "letch=self.chars().rev().next()?;letnewlen=self.len()-ch.len_utf8();unsafe{self.vec.set_len(newlen);}Some(ch)"),
     ("src/collections/string.rs", "insert_bytes", "string_insert_bytes_moves",
      "self.vec.reserve(amt);ptr::copy(self.vec.as_ptr().add(idx),self.vec.as_mut_ptr().add(idx+amt),len-idx,);ptr::copy(bytes.as_ptr(),self.vec.as_mut_ptr().add(idx),amt);self.vec.set_len(len+amt);"),
+    # replace_range asks for the extra room BEFORE the splice writes anything (F14): a refusal leaves the text untouched
+    ("src/collections/string.rs", "replace_range", "string_replace_range_reserves_first",
+     "ifletSome(removed)=end.checked_sub(start){self.vec.reserve(replace_with.len().saturating_sub(removed));}unsafe{self.as_mut_vec()}.splice(range,replace_with.bytes());}"),
 ]
 # methods of `self` that are functions of the table when called with one argument
 SELF_FNS = {"is_last_allocation"}
